@@ -129,6 +129,47 @@ def toMoreWith {α : Type} (posOf : Nat → Nat → Option (List Nat)) : List (L
 def toMore {α : Type} (parts : List (List α)) (new : Nat) : Option (List (List α)) :=
   (nsplits new parts.length).bind (toMoreWith splitPositions parts)
 
+/-! ### RepartitionSize -/
+
+/-- `RepartitionSize._nsplits = 1 + mem_usage // size`; `none` = division by zero -/
+def sizeNsplits (usages : List Nat) (size : Nat) : Option (List Nat) :=
+  if size = 0 then none else some (usages.map fun u => 1 + u / size)
+
+/-- `dask.utils.iter_chunks(sizes, max)` as the LENGTHS of the yielded chunks: greedy consecutive groups whose
+    sum stays `≤ max`; `cnt`/`sum` = length and total of the chunk being filled; `none` = AssertionError
+    (a size exceeds `max`) -/
+def iterChunksGo (max : Nat) : List Nat → Nat → Nat → Option (List Nat)
+  | [], cnt, _ => some (if cnt = 0 then [] else [cnt])
+  | s :: rest, cnt, sum =>
+    if s > max then none
+    else if sum + s ≤ max then iterChunksGo max rest (cnt + 1) (sum + s)
+    else if cnt = 0 then none      -- `assert chunk` (unreachable: `sum = 0` then)
+    else (iterChunksGo max rest 1 s).map (cnt :: ·)
+
+def iterChunks (sizes : List Nat) (max : Nat) : Option (List Nat) := iterChunksGo max sizes 0 0
+
+/-- `np.cumsum` -/
+def cumsumFrom : Nat → List Nat → List Nat
+  | _, [] => []
+  | acc, x :: xs => (acc + x) :: cumsumFrom (acc + x) xs
+
+/-- `RepartitionSize._partition_boundaries` from the chunk lengths (`_clean_new_division_boundaries` against the
+    number of partitions of the FRAME, also when partitions were split first) -/
+def sizeBoundaries (lens : List Nat) (nparts : Nat) : Option (List Nat) := cleanBoundaries (cumsumFrom 0 lens) nparts
+
+/-- the pieces `RepartitionSize._layer` concatenates: the partitions themselves, or (when some split count
+    exceeds 1) the partitions cut `k`-fold by `split_evenly` -/
+def sizePieces {α : Type} (posOf : Nat → Nat → Option (List Nat)) (parts : List (List α)) (ks : List Nat) :
+    Option (List (List α)) :=
+  if ks.all (· == 1) then some parts else toMoreWith posOf parts ks
+
+/-- `RepartitionSize._layer`: split the partitions `ks`-fold where needed (`split_evenly`), then concatenate
+    the consecutive runs given by the boundaries -/
+def repartitionSizeWith {α : Type} (posOf : Nat → Nat → Option (List Nat)) (parts : List (List α)) (ks lens : List Nat) :
+    Option (List (List α)) :=
+  (sizePieces posOf parts ks).bind fun pieces =>
+    (sizeBoundaries lens parts.length).bind fun bs => evalLayer pieces (toFewerLayer bs)
+
 /-! ### `Repartition._lower` for `npartitions=` (after the fix of defect #22) -/
 
 inductive Kind where
